@@ -236,6 +236,18 @@ impl Exec {
                 ev["id"] = json!(id);
                 ev["tag"] = json!(self.push_reply(id));
             }
+            "badbody" => {
+                // header intact, body not well-formed: belongs to `id`, only its caller may see the error
+                let id = c["id"].as_u64().unwrap();
+                self.answered.push(id);
+                self.next_tag += 1;
+                ev["id"] = json!(id);
+                ev["tag"] = json!(self.next_tag);
+                self.ctl.push(format!(
+                    "<rpc-reply message-id=\"{id}\" xmlns=\"{BASE_NS}\"><data>T{}</wrong></rpc-reply>{EOM}",
+                    self.next_tag
+                ));
+            }
             "garbage" => {
                 self.next_tag += 1;
                 ev["tag"] = json!(self.next_tag);
@@ -458,8 +470,17 @@ fn random_case(
             }
         } else if faults && k < 94 && !answered.is_empty() {
             Some(json!({"c": "dup", "id": answered[rng.gen_range(0..answered.len())]}))
-        } else if faults && k < 96 {
+        } else if faults && k < 95 {
             Some(json!({"c": "garbage"}))
+        } else if faults && k < 96 {
+            let cand: Vec<u64> = sent_ids(ex).into_iter().filter(|i| !answered.contains(i)).collect();
+            if cand.is_empty() {
+                None
+            } else {
+                let i = cand[rng.gen_range(0..cand.len())];
+                answered.push(i);
+                Some(json!({"c": "badbody", "id": i}))
+            }
         } else if faults && k < 97 && !closed {
             closed = true;
             Some(json!({"c": "close"}))
